@@ -114,19 +114,29 @@ Expected(c) ==
                 \o S2B("[") \o Resolved(c, "b") \o S2B("2]") \o S2B("$")
 
 (* ---- stand-alone users: a template that imports blocks with use but extends nothing (and may define no block itself) ---- *)
-NSolo == 6
+NSolo == 9
 SoloU == ("u" :> <<BlockS("h", <<Who("u"), Lbl("uh")>>)>>) @@ ("u2" :> <<BlockS("h2", <<Who("u2"), Lbl("u2h")>>)>>)
 SoloBody(k) ==
   CASE k = 1 -> <<UseS(StrE("u"), << <<"h", "g">> >>), Lbl("^"), PrintS(CallE("block", <<StrE("g")>>)), Lbl("$")>>
     [] k = 3 -> <<UseS(StrE("u"), <<>>), Lbl("^"), BlockS("own", <<Lbl("o")>>), PrintS(CallE("block", <<StrE("h")>>)), Lbl("$")>>
     [] k = 4 -> <<UseS(StrE("u"), <<>>), UseS(StrE("u2"), <<>>), Lbl("^"), PrintS(CallE("block", <<StrE("h2")>>)), PrintS(CallE("block", <<StrE("h")>>)), Lbl("$")>>
     [] OTHER -> <<UseS(StrE("u"), <<>>), Lbl("^"), PrintS(CallE("block", <<StrE("h")>>)), Lbl("$")>>
-SoloTpls(k) == SoloU @@ ("t1" :> SoloBody(k))
+(* the same block library imported more than once in one rendering, with an alias at one place only: an alias belongs to
+   the use statement that declares it *)
+TwiceTpls(k) ==
+  ("traits" :> <<BlockS("a", <<Lbl("T.a")>>)>>)
+  @@ ("other" :> <<BlockS("side", <<Lbl("O.side["), PrintS(CallE("parent", <<>>)), Lbl("]")>>)>>)
+  @@ ("root" :> <<Lbl("<"), BlockS("a", <<Lbl("R.a")>>), Lbl("|"), BlockS("side", <<Lbl("R.side")>>), Lbl(">")>>)
+  @@ ("mid" :> <<ExtendsS(StrE("root")), UseS(StrE("traits"), << <<"a", "side">> >>),
+                 BlockS("side", <<Lbl("M.side["), PrintS(CallE("parent", <<>>)), Lbl("]")>>)>>)
+  @@ ("t1" :> IF k = 8 THEN <<ExtendsS(StrE("root")), UseS(StrE("traits"), <<>>), UseS(StrE("other"), <<>>), UseS(StrE("traits"), << <<"a", "side">> >>)>>
+              ELSE <<ExtendsS(StrE("mid")), UseS(StrE("traits"), <<>>)>>)
+SoloTpls(k) == IF k >= 6 THEN TwiceTpls(k) ELSE SoloU @@ ("t1" :> SoloBody(k))
                @@ (CASE k = 2 -> ("top" :> <<Lbl("["), IncludeS(StrE("t1"), NoE, FALSE), Lbl("]")>>)
                      [] k = 5 -> ("top" :> <<Lbl("["), EmbedS(StrE("t1"), NoE, FALSE, <<>>), Lbl("]")>>)
                      [] OTHER -> <<>>)
-SoloEntry(k) == IF k \in {2, 5} THEN "top" ELSE "t1"
-SoloExpected(k) == CASE k = 1 -> S2B("^uh$") [] k = 3 -> S2B("^ouh$") [] k = 4 -> S2B("^u2huh$")
+SoloEntry(k) == IF k \in {2, 5} THEN "top" ELSE IF k = 6 THEN "mid" ELSE "t1"
+SoloExpected(k) == CASE k \in {6, 7} -> S2B("<T.a|M.side[T.a]>") [] k = 8 -> S2B("<T.a|O.side[T.a]>") [] k = 1 -> S2B("^uh$") [] k = 3 -> S2B("^ouh$") [] k = 4 -> S2B("^u2huh$")
                      [] k \in {2, 5} -> S2B("[^uh$]") [] OTHER -> S2B("^uh$")
 IsSolo == v_idx >= Total
 
